@@ -1,2 +1,2 @@
 #!/bin/bash
-exec "$(dirname "$0")/bm.sh" C03 "$@"
+exec "$(dirname "$0")/run.sh" C03 "$@" bm facts
